@@ -27,18 +27,29 @@ def needsSerde (schemas : SchemaTable) : Bool :=
 
 def firstErr {α β ε : Type} (f : α → Except ε β) : List α → Except ε (List β) := mapE f
 
+def modelPath (hir : HirSpec) (cfg : Cfg) (kv : Text × Record) : Except PipeX Text :=
+  match makeModelFile hir.schemas cfg kv.1 kv.2 with
+  | .ok f => .ok (cs!"src/model/" ++ f.stem ++ cs!".rs")
+  | .error e => .error (.model kv.1 e)
+
+def requestPath (hir : HirSpec) (cfg : Cfg) (op : Operation) : Except PipeX Text :=
+  match makeRequestFile (!hir.security.isEmpty) cfg op with
+  | .ok f => .ok (cs!"src/request/" ++ f.stem ++ cs!".rs")
+  | .error e => .error (.request op.name e)
+
+def examplePath (hir : HirSpec) (cfg : Cfg) (op : Operation) : Except PipeX Text :=
+  match makeExample hir.schemas cfg op with
+  | .ok e => .ok (cs!"examples/" ++ e.stem ++ cs!".rs")
+  | .error x => .error (.example op.name x)
+
 /-- the files `generate_rust_library` writes, relative to the output directory, for an extracted spec -/
 def emitFiles (hir : HirSpec) (cfg : Cfg) : Except PipeX (List Text) :=
   -- write_model_module
-  match mapE (fun (kv : Text × Record) => match makeModelFile hir.schemas cfg kv.1 kv.2 with
-        | .ok f => (.ok (cs!"src/model/" ++ f.stem ++ cs!".rs") : Except PipeX Text)
-        | .error e => .error (.model kv.1 e)) hir.schemas with
+  match mapE (modelPath hir cfg) hir.schemas with
   | .error e => .error e
   | .ok modelFiles =>
   -- write_request_module
-  match mapE (fun (op : Operation) => match makeRequestFile (!hir.security.isEmpty) cfg op with
-        | .ok f => (.ok (cs!"src/request/" ++ f.stem ++ cs!".rs") : Except PipeX Text)
-        | .error e => .error (.request op.name e)) hir.operations with
+  match mapE (requestPath hir cfg) hir.operations with
   | .error e => .error e
   | .ok requestFiles =>
   -- make_lib_rs
@@ -47,11 +58,7 @@ def emitFiles (hir : HirSpec) (cfg : Cfg) : Except PipeX (List Text) :=
   | _, .error e => .error (.lib e)
   | .ok _, .ok _ =>
   -- write_examples_folder
-  match (if cfg.examples then
-      mapE (fun (op : Operation) => match makeExample hir.schemas cfg op with
-        | .ok e => (.ok (cs!"examples/" ++ e.stem ++ cs!".rs") : Except PipeX Text)
-        | .error x => .error (.example op.name x)) hir.operations
-    else .ok []) with
+  match (if cfg.examples then mapE (examplePath hir cfg) hir.operations else .ok []) with
   | .error e => .error e
   | .ok exampleFiles =>
     .ok ([cs!"src/model/mod.rs"] ++ modelFiles ++ requestFiles ++ [cs!"src/request/mod.rs", cs!"src/lib.rs"] ++
